@@ -93,7 +93,7 @@ func valKind(v Val) string {
 }
 
 func checkC10(c *Ctx) {
-	c.rule = "API driver: every receiver of a 51-value pool (all value types incl. objects, types, library functions, exception, Go value) x every member name extracted from the working tree (+unknown names) x {get, set, call, new, fn, str, dup, cmp, json} x argument tuples (arity 0..1 exhaustive over a 32-value boundary pool, arity 2 exhaustive in thorough, arity 2..4 random; for list / dictionary / text receivers additionally every position and position pair in [-2, length+2]), applied as step sequences on one receiver. Program driver: one- and two-statement Zn programs applying every operator / index / member / call / new / throw / loop form to input variables drawn from the same pools; plus user methods / type methods whose body ends in each of 25 failures (with no handler, a handler without and with 输出) whose call is placed in each of 26 consumer positions. Violation = recovered Go panic, nil element without error, worker exit, or hang. distinct_nontrivial = distinct (receiver kind, step kind, member, arg kinds, outcome kind)"
+	c.rule = "API driver: every receiver of a 51-value pool (all value types incl. objects, types, library functions, exception, Go value) x every member name extracted from the working tree (+unknown names) x {get, set, call, new, fn, str, dup, cmp, json} x argument tuples (arity 0..1 exhaustive over a 32-value boundary pool, arity 2 exhaustive in thorough, arity 2..4 random; for list / dictionary / text receivers additionally every position and position pair in [-2, length+2]), applied as step sequences on one receiver. Program driver: one- and two-statement Zn programs applying every operator / index / member / call / new / throw / loop form to input variables drawn from the same pools; plus user methods / type methods whose body ends in each of 25 failures (with no handler, a handler without and with 输出) whose call is placed in each of 26 consumer positions. Input-variable driver: texts without any statement (line breaks, comments, imports only), every right-hand-side kind, failing and ill-formed texts through ExecVarInputText. Violation = recovered Go panic, nil element without error, worker exit, or hang. distinct_nontrivial = distinct (receiver kind, step kind, member, arg kinds, outcome kind)"
 	c.assumptions = []string{"library functions run inside the worker's private scratch directory", "member tables are read from /repo sources at check time by a string-literal scan"}
 	rng := c.Rand("c10")
 	members := memberNames()
@@ -350,6 +350,30 @@ func checkC10(c *Ctx) {
 			addProg("format-tmpl2", "输出乙 % 【甲，甲】\n", a, Text(t+t))
 		}
 	}
+	// input-variable texts (ExecVarInputText): statement-free texts, every kind of right-hand
+	// side, and failures inside the text
+	vtexts := []string{"", "\n", "\n\n\n", "\r\n", " ", "\t", "；", "；；", "注：只有一行注释", "注：「多行\n注释」\n", "/* 块 */", "// 行", "导入《@JSON》", "导入《@样品库》", "导入“不存在”",
+		"A = 1\n\n", "\nA = 1", "注：x\nA = 1", "如何X？\n\t输出 1", "定义X：\n\t其a = 1", "输入A", "输出 1", "A", "1", "A = ", "= 1", "A = A", "A = 其", "A = 其B", "A = 此", "A = 3x7", "A = “{” % 【】",
+		"A = 1；A = 2", "A = 1；B = A + 1", "真 = 1", "数值 = 1", "A = 数值", "A = 异常", "A = 显示", "A = （显示：1）", "A = （新建异常：“x”）", "A = （新建异常）", "A = 【1，2】#3", "A = 【】#0", "A#1 = 2", "A之B = 3",
+		"A = 以1（加：2）", "A = 以“x”（取样：0、1）", "A = 1 / 0", "A = “x” * 2", "抛出异常：“x”！", "如果真：\n\tA = 1", "每当真：\n\tA = 1", "以K遍历【1】：\n\tA = 1"}
+	exprs := []string{"1", "-0", "1*10^400", "“”", "“x”", "真", "空", "【】", "【1，【2】】", "【“a” = 1】", "【=】", "数值", "异常", "显示", "取随机数", "（新建异常：“m”）", "以【1，2】（后增：3）", "以“ab”（字符组）", "1 + 2 * 3", "{1 + 2} * 3", "“{}” % 【1】", "【1】#1", "【“a” = 1】#“a”", "以数值（自增：1）"}
+	for _, e := range exprs {
+		vtexts = append(vtexts, "A = "+e, "A = "+e+"；B = A", "A = "+e+"\nB = 【A，A】", "A = 【"+e+"，"+e+"】", "A = "+e+"之长度", "A = 以"+e+"（文本）")
+	}
+	vreqs := make([]Req, len(vtexts))
+	for i, t := range vtexts {
+		vreqs[i] = Req{Op: "varinput", Text: t, ParseBudget: 64*(len(t)+16) + 2000, EvalBudget: 100000, Libs: true}
+	}
+	c.runBatches(vreqs, 40, func(i int, req *Req, resp *Resp) {
+		c.Eval()
+		c.Count("varinput_"+resp.Kind, 1)
+		c.Nontrivial("varinput|" + vtexts[i] + "|" + resp.Kind)
+		switch resp.Kind {
+		case "ok", "error":
+		default:
+			c.Violation("varinput:"+resp.Kind+":"+vtexts[i], fmt.Sprintf("input-variable text %q: outcome %s %s %s", vtexts[i], resp.Kind, clip(resp.Panic, 300), clip(resp.Stderr, 300)), map[string]interface{}{"req": req})
+		}
+	})
 	preqs := make([]Req, len(pjobs))
 	for i, p := range pjobs {
 		r := execReq(p.src)
